@@ -150,7 +150,7 @@ class GOb(Obligation):
                     checks.append((label, ok, info))
                     if not ok:
                         break
-                return res, prims, pairs, checks
+                return res, prims, pairs, checks, dict(G.INPUTS)
 
             paths = explore(body, assum)
             npaths = len(paths)
@@ -169,7 +169,7 @@ class GOb(Obligation):
                 if p.kind == "exc":
                     fails.append((p, f"exception on a feasible path: {type(p.value).__name__}: {p.value}"))
                     continue
-                res, prims, pairs, checks = p.value
+                res, prims, pairs, checks, _inp = p.value
                 if self.allowed_prims is not None:
                     bad = sorted(set(prims) - set(self.allowed_prims))
                     if bad:
@@ -212,6 +212,9 @@ class GOb(Obligation):
         """Candidate size assignments satisfying assumptions ∧ path condition."""
         names = sorted(_atoms_of(self, path) | getattr(self, "_extra_atoms", set()))
         out = []
+        zm = _diverse_model(path, names)
+        if zm is not None:
+            out.append(zm)
         for k in range(n):
             env = {a: max(atom_lower(a), 2 + ((i + k) % 3) + (1 if k == 2 else 0)) for i, a in enumerate(names)}
             if _satisfies(path, env):
@@ -269,7 +272,8 @@ class GOb(Obligation):
         if not envs:
             return True, "monitor skipped: no concrete instance"
         env = envs[0]
-        res, prims, pairs, _checks = path.value
+        res, prims, pairs, _checks, path_inputs = path.value
+        G.INPUTS.update(path_inputs)  # opaque tensors are re-declared on every path: use this path's declarations
         try:
             import tensorly as tl
             import tensorly.tenalg as tenalg_mod
@@ -286,7 +290,7 @@ class GOb(Obligation):
                 inputs0.update(nb.recorded)
                 inputs0.update(S.recorded)
             for (label, got, want), (_, ngot, nwant) in zip(pairs, npairs):
-                if not isinstance(got, G.GTensor):
+                if not isinstance(got, G.GTensor) or "denominators cleared" in label:
                     continue
                 sv = G.evaluate(got, env, inputs0)
                 ok, info = compare_num(sv, np.asarray(ngot), 1e-7, 1e-8)
@@ -383,6 +387,29 @@ def _atoms_of(ob, path):
     return names
 
 
+def _diverse_model(path, names):
+    """a model of assumptions ∧ path with all atoms >= 2 and pairwise distinct (avoids degenerate / coincidental sizes)"""
+    if path is None or path.ctx is None or not names:
+        return None
+    import z3
+    s = z3.Solver()
+    s.set("timeout", 3000)
+    for a in list(path.ctx.assumptions) + list(path.cond):
+        if isinstance(a, SBool):
+            s.add(a.z3())
+    vs = [z3.Int(n) for n in names]
+    for v, n in zip(vs, names):
+        s.add(v >= max(2, atom_lower(n)), v <= 9)
+    s.push()
+    s.add(z3.Distinct(*vs)) if len(vs) > 1 else None
+    if s.check() != z3.sat:
+        s.pop()
+        if s.check() != z3.sat:
+            return None
+    m = s.model()
+    return {n: m.eval(v, model_completion=True).as_long() for v, n in zip(vs, names)}
+
+
 def _sint_atoms(obj, depth=0):
     out = set()
     if isinstance(obj, SInt):
@@ -434,7 +461,14 @@ def _sym_equal(got, want, check_dtype=False):
             return False, f"dtype {g.dtype} vs expected {w.dtype}"
         return ok, info
     if isinstance(want, SInt) or isinstance(got, SInt):
-        return (SInt.lift(got).same(want), f"{got!r} vs expected {want!r}")
+        if SInt.lift(got).same(want):
+            return True, None
+        from .symint import current_ctx
+        ctx = current_ctx()
+        eq = SInt.lift(got) == want
+        if ctx is not None and not isinstance(eq, bool) and ctx.entails(eq):
+            return True, None  # equal under the path condition (e.g. min(a, r) returned a on the path where r == a)
+        return False, f"{got!r} vs expected {want!r}"
     return (got == want, f"{got!r} vs expected {want!r}")
 
 
